@@ -76,7 +76,7 @@ partial def loop (h : IO.FS.Stream) (out : IO.FS.Stream) (step : M Unit) (isGen 
   | none => out.putStrLn ("? bad-vector " ++ line)
   | some v =>
     if v.kind == "cpm" then
-      match (if isGen then genRun 400000 else refRun step 400000) (cpmState v line) with
+      match (if isGen then genRun 60000 else refRun step 60000) (cpmState v line) with
       | some (code, s) => out.putStrLn (cpmResult v.id code s)
       | none => out.putStrLn (v.id ++ " running")
     else if v.kind == "run" then
